@@ -49,6 +49,11 @@ def cases(ctx):
     out += ndim_cases(rng, n // 3, 5, RECT3, ("sq", "eu"), pens=(0, 1), mss=(0, 0, 5), mds=(0, 0, 11), psi_prob=0.3)
     out += ndim_cases(rng, n // 4, 6, RECT2, ("sq", "eu"), pens=(0,), psi_prob=0.0, prune=True)
     out += ndim_cases(rng, n // 4, 6, RECT3, ("sq", "eu"), pens=(0,), psi_prob=0.0, prune=True)
+    # use_pruning together with everything else (penalty with unequal lengths, max_step, an explicit max_dist,
+    # max_length_diff): the Euclidean bound need not be valid there, but the engines must still agree
+    out += dc.random_cases(rng, n // 2, 6, (0, 1, 2, 3, 5), inners=("sq", "eu"), pens=(0, 1, 2, 3), mss=(0, 0, 2),
+                           mds=(0, 0, 3, 5, 9), mlds=(-1, -1, 1), psi_prob=0.3, prune=True)
+    out += ndim_cases(rng, n // 6, 5, RECT2, ("sq", "eu"), pens=(0, 1, 2), mds=(0, 5, 7), psi_prob=0.2, prune=True)
     return dc.with_ids(out, "c02-")
 
 
